@@ -18,7 +18,7 @@ CFG = dict(
         "varint": ("varint_case", "check_varint"), "vdec": ("vdec_case", "check_vdec"),
         "delta": ("delta_case", "check_delta"), "rle": ("rle_case", "check_rle"),
         "sparse": ("sparse_case", "check_sparse"), "frame": ("frame_case", "check_frame"),
-        "split": ("split_case", "check_split"), "valid": ("valid_case", "check_valid"), "breq": ("breq_case", "check_breq"), "fsparse": ("fsparse_case", "check_fsparse"), "parts": ("parts_case", "check_parts"), "fdec": ("fdec_case", "check_fdec"),
+        "split": ("split_case", "check_split"), "valid": ("valid_case", "check_valid"), "breq": ("breq_case", "check_breq"), "fsparse": ("fsparse_case", "check_fsparse"), "parts": ("parts_case", "check_parts"), "fdec": ("fdec_case", "check_fdec"), "svset": ("svset_case", "check_svset"),
     },
     known_classes={},
     shard=150,
